@@ -259,6 +259,16 @@ def c03(run, replay=None):
                           dict(desc, observed=dict(status=ir["status"], touched=ir["touched"])))
         if S.status_of(ir["status"]) == "changed":
             nontrivial.add(json.dumps(desc, sort_keys=True))
+    # the command-line path: `rash --check` / `-c` on the real binary (bin/rash.rs -> GlobalParams -> every task)
+    from . import engine as E
+    script = ("#!/usr/bin/env rash\n- copy:\n    content: new\n    dest: ROOT/out/f\n- file:\n    path: ROOT/out/d/e\n    state: directory\n"
+              "- file:\n    path: ROOT/out/t\n    state: touch\n    mode: \"0600\"\n- template:\n    src: ROOT/main.rh\n    dest: ROOT/out/tpl\n- file:\n    path: ROOT/keep\n    state: absent\n"
+              "- command: \"sh -c 'echo ran >> ROOT/log'\"\n  check_mode: false\n")
+    for ra in (["--check"], ["-c"], ["--check", "--diff"], ["-cd"], ["-c", "-v"]):
+        o = E.run_impls([dict(files={"main.rh": dict(raw=script), "keep": dict(raw="k")}, rash_args=ra)])[0]
+        if o["out"] or o["rc"] != 0 or o["stdout"].count("\n") < 5:
+            run.violation("rash %s: the run modified the tree (out/ now holds %r) or did not complete (rc %r)" % (" ".join(ra), o["out"], o["rc"]),
+                          dict(script=script, rash_args=ra, observed=o))
     # special files: check mode must leave them alone too
     sp = [(nodes, [t], chk) for nodes, t in special_cases() for chk in ("global", "task")]
     for (nodes, ts, chk), io in zip(sp, run_special(sp)):
